@@ -117,8 +117,22 @@ def r_pairing(F, R, cat=None):
                 a = operand_tree(ic, itt["args"][1])
                 rr = operand_tree(pc, pt["args"][0])
                 ir = operand_tree(ic, itt["args"][0])
+                r_roots = {r for (r, p) in pc.org.operand(pt["args"][0])}
+                i_roots = {r for (r, p) in ic.org.operand(itt["args"][0])}
+                # ... or the two receivers are the parts one FlatStack literal was built from
+                one_literal = False
+                if pc is ic:
+                    for bi2 in pc.body.live_blocks():
+                        for st2 in pc.body.blocks[bi2]["stmts"]:
+                            if st2["k"] == "assign" and st2["rv"]["k"] == "aggregate" and st2["rv"].get("adt") == FS:
+                                parts = set()
+                                for o2 in st2["rv"]["ops"]:
+                                    if o2["k"] != "const":
+                                        parts |= {r for (r, p) in pc.org.operand(o2)}
+                                if (r_roots & parts) and (i_roots & parts):
+                                    one_literal = True
                 same_stack = rr[0] == ir[0] == "place" and rr[1:3] == ir[1:3] and tuple(rr[3][:-1]) == tuple(ir[3][:-1]) or \
-                    (strip_bb(rr)[:3] == strip_bb(ir)[:3])
+                    (strip_bb(rr)[:3] == strip_bb(ir)[:3]) or one_literal
                 ok = pc is ic and a[0] == "call" and a[1] == ("Push", "push") and a[4] == pbi and a[3] == () and bool(same_stack)
                 why = "written-out loop: indices.push(%s); same stack: %s" % (show(a)[:60], bool(same_stack))
             else:
@@ -195,6 +209,17 @@ def r_delegation(F, R):
         if len(rets) == 1 and rets[0][0] == "agg" and rets[0][1] == "Iter::Iter":
             ops = rets[0][2]
             ok = ops == (("call", ("IndexContainer", "iter"), (place(b, "f:indices"),), ()), place(b, "f:region"))
+            if not ok:
+                # by field name (the declaration order of a private struct is free)
+                for (r_, p_) in ctx.org.local(0):
+                    if r_[0] == "agg" and not p_:
+                        rv = ctx.org.stmt(r_[1], r_[2])["rv"]
+                        names = rv.get("fields") or [f["name"] for f in F.adts["Iter"]["variants"][0]["fields"]] \
+                            if "Iter" in F.adts else rv.get("fields")
+                        if names and len(names) == len(ops):
+                            byname = dict(zip(names, ops))
+                            ok = byname.get("inner") == ("call", ("IndexContainer", "iter"), (place(b, "f:indices"),), ()) and \
+                                byname.get("region") == place(b, "f:region")
             builders += ok
             why = "builds Iter{indices.iter(), &region}"
         elif len(rets) == 1 and rets[0][0] == "call" and rets[0][1][1] in ("into_iter", "iter") and \
